@@ -24,7 +24,7 @@ def canon_engine(tier, seed, wdir):
 
 def depfile_engine(tier, seed, wdir):
     res = []; viol = []; mcs = []; samples = []; n = 0; nontriv = 0
-    for mode in ("structured", "strings"):
+    for mode in ("structured", "structured3", "strings"):
         cfg = "MC_Depfile_%s_%s.cfg" % (mode, "q" if tier == "quick" else "t")
         mc, vecs = D.tlc_vectors("depfile-" + mode, "Depfile.tla", cfg, workers=6)
         mcs.append(mc)
@@ -33,14 +33,15 @@ def depfile_engine(tier, seed, wdir):
         n += s["n"]
         nontriv += s["counts"].get("multi_entry", 0) + s["counts"].get("rejected", 0)
         samples += vecs[:2]
+        structured = mode.startswith("structured")
         for b in s["bad"]:
             tag = b["kind"]
             if b.get("dup"):
                 tag = "dup-target-" + tag
-            prop = "C15" if mode == "structured" or b["kind"] != "panic" else "C15"
+            prop = "C15"
             viol.append(_viol(prop, tag, "depfile-" + mode, b))
-            if b["kind"] == "panic":
-                viol.append(_viol("C12", "depfile-panic", "depfile-" + mode, b))
+            if b["kind"] in ("panic", "abort", "timeout"):
+                viol.append(_viol("C12", "depfile-" + b["kind"], "depfile-" + mode, b))
     return {"mc": mcs, "results": res, "viol": viol, "nvec": n, "nontrivial": nontriv, "samples": samples}
 
 def render_engine(tier, seed, wdir):
@@ -57,7 +58,22 @@ def render_engine(tier, seed, wdir):
             viol.append(_viol("C20", "%s-%s" % (mode, b["kind"]), "render-" + mode, b))
     return {"mc": mcs, "results": res, "viol": viol, "nvec": n, "nontrivial": nontriv, "samples": samples}
 
+UTF8 = {"~2": "\u00e9", "~3": "\u20ac", "~4": "\U0001d11e"}
+
+def _utf(x):
+    """Replaces the placeholders of multi-byte characters in texts and expectations."""
+    if isinstance(x, str):
+        for k, c in UTF8.items():
+            x = x.replace(k, c)
+        return x
+    if isinstance(x, list):
+        return [_utf(y) for y in x]
+    if isinstance(x, dict):
+        return {k: _utf(y) for k, y in x.items()}
+    return x
+
 def _manifest_vec(v, idx, fam):
+    v = _utf(v)
     files = {}
     main = v["files"][0]["name"]
     for i, f in enumerate(v["files"]):
@@ -91,8 +107,8 @@ def manifest_engine_for(prop):
             for b in s["bad"]:
                 tag = b["kind"] + ("-" + b["field"] if b.get("field") else "")
                 viol.append(_viol(prop, tag, "manifest-" + fam, b))
-                if b["kind"] == "panic":
-                    viol.append(_viol("C12", "manifest-panic", "manifest-" + fam, b))
+                if b["kind"] in ("panic", "abort", "timeout"):
+                    viol.append(_viol("C12", "manifest-" + b["kind"], "manifest-" + fam, b))
         return {"mc": mcs, "results": res, "viol": viol, "nvec": n, "nontrivial": nontriv,
                 "samples": samples}
     return run
